@@ -307,7 +307,7 @@ def replay(binary, wd, tlc_out, tables="plain", adapters="go", workers=None, per
 
 
 TLC_TAGS = {"TestReplay": "TRACE", "TestCrash": "TRACE", "TestNamespace": "NTRACE", "TestErrorHandling": "CASE",
-            "TestAuthz": "ACASE", "TestAuthzPersist": "PCASE", "TestJobConfigs": "JCFG", "TestParser": "DOC"}
+            "TestAuthz": "ACASE", "TestAuthzPersist": "PCASE", "TestJobConfigs": "JCFG", "TestParser": "DOC", "TestRegistry": "RTRACE"}
 
 
 def attach_replay_input(results, tlc_out, test, adapters, extra_env):
